@@ -9,6 +9,7 @@ of the differential run), and (2) trace validation of the tally/decision functio
 import Gossamer.Lib.C22Inv
 import Gossamer.Lib.C22Possible
 import Gossamer.Lib.C22Example
+import Gossamer.Lib.C22Sim
 namespace Gossamer.C22
 
 /-! ## 1. quorum intersection -/
@@ -230,5 +231,35 @@ theorem C22_closable_of_computed {B : Type} [DecidableEq B] (vs : Voters) (O : B
     (hall : ∀ x : B, O.comparable x g → possibleW vs O (votesOf view r .precommit) x = true →
       O.le x e = true) : closable vs O view r g e :=
   closable_of_computed vs O view r g e hg he hall
+
+/-! ## 6. lib/grandpa across rounds (known finding c22-prevote-ignores-estimate) -/
+
+/-- the schedule of the known finding: 4 voters, NO Byzantine voter, the fork 0 ← 1 ← 2, 1 ← 3 -/
+def forkCfg : Sim.Cfg := ⟨4, [], [0, 1, 1]⟩
+
+def forkOps : List Sim.Op :=
+  [.best 0 2, .best 1 2, .best 2 2, .best 3 3, .pv 0, .pv 1, .pv 2, .pv 3, .d 1 0, .d 2 0, .d 3 0,
+   .d 0 1, .d 2 1, .d 3 1, .d 0 2, .d 1 2, .d 3 2, .d 0 3, .d 1 3, .pc 0, .pc 1, .pc 2, .pc 3,
+   .d 5 0, .d 6 0, .d 7 0, .d 4 1, .d 7 1, .d 4 2, .d 7 2, .d 4 3, .d 5 3, .fin 0, .fin 1, .fin 2,
+   .fin 3, .best 1 3, .best 2 3, .best 3 3, .pv 1, .pv 2, .pv 3, .d 9 1, .d 10 1, .d 8 2, .d 10 2,
+   .d 8 3, .d 9 3, .pc 1, .pc 2, .pc 3, .d 12 1, .d 13 1, .d 11 2, .d 13 2, .d 11 3, .d 12 3,
+   .fin 1, .fin 2, .fin 3]
+
+set_option maxRecDepth 100000 in
+/-- The decision functions of lib/grandpa in the closed form that the differential run ties to the real
+    code (Lib/C22Sim; the real Services give the same outputs on this very schedule, corpus line of
+    corpus/C22/run0.lines) finalise blocks 2 and 3, which are on different forks, although every voter is
+    honest: voter 0 finalises block 2 in round 1, voters 1–3 finalise block 1 in round 1 and block 3 in
+    round 2.  `C22_safe` does not apply because these voters leave round 1 without an estimate and prevote
+    outside the chain of block 2, which still could (and did) get a supermajority: the rule `closable` /
+    `extendsEst` of the abstract protocol is not implemented by lib/grandpa. -/
+theorem C22_lib_rounds_counterexample :
+    forkCfg.byz = [] ∧
+    (let w := forkOps.foldl (Sim.step forkCfg) { vs := List.replicate forkCfg.n {} }
+     Sim.safeB forkCfg w = false ∧ (Sim.getV w 0).fins = [2] ∧ (Sim.getV w 1).fins = [3, 1] ∧
+       w.estViol = true ∧ w.otherViol = false) ∧
+    ¬ (parentOrder forkCfg.ps).comparable 2 3 := by
+  refine ⟨rfl, ?_, by decide⟩
+  decide
 
 end Gossamer.C22
